@@ -41,7 +41,7 @@ def main(argv):
     it = tlcrun.emitted(info["out"])
     config = json.loads(next(it))["config"]
     inst = I.Inst(pp, v, a, spell_seed=spell_seed)
-    if not inst.admissible(int(overrides.get("DenBound", instances.INSTANCES[instance]["den_bound"]))):
+    if not os.environ.get("VERIF_SKIP_ADMISSIBLE") and not inst.admissible(int(overrides.get("DenBound", instances.INSTANCES[instance]["den_bound"]))):
         raise SystemExit(f"instantiation {inst.name} is not admissible for {instance}")
     rp = lab_replay.LabReplay(pp, inst, config, instance=instance)
     t1 = time.time()
